@@ -1194,7 +1194,9 @@ func (p ForceRejoinReqPayload) MarshalBinary() ([]byte, error) {
 	if p.MaxRetries > 7 {
 		return nil, errors.New("lorawan: max value of MaxRetries is 7")
 	}
-	if p.RejoinType != 0 && p.RejoinType != 2 {
+	// RejoinType 0 and 1 both request a Rejoin-request type 0, RejoinType 2 a
+	// Rejoin-request type 2; 3..7 are RFU.
+	if p.RejoinType > 2 {
 		return nil, errors.New("lorawan: RejoinType must be 0 or 2")
 	}
 	if p.DR > 15 {
